@@ -146,7 +146,7 @@ func checkC01(c *Ctx) {
 	for _, role := range []string{"increment", "init-from-stored-topic", "proxy-mirror"} {
 		r.Check(roleSeen[role], "C01.1-lastID-writer-roles", "a writer of Topic.lastID with role "+role+" exists", "-", "", "no writer of Topic.lastID with this role: anchor lost or rule vacuous")
 	}
-	r.Floor("C01.1e-restore-on-every-load-path", 3)
+	r.Floor("C01.1e-restore-on-every-load-path", 2)
 	isInitRoot := map[*ssa.Function]bool{}
 	for _, f := range initRoots {
 		isInitRoot[f] = true
